@@ -111,7 +111,7 @@ def main(argv=None):
         with open(a.replay) as f:
             rec = json.load(f)
         case = rec.get("case", rec)
-        specs = [{"seed": a.seed, "replay": case, "watchdog_s": 900, "tier": a.tier}]
+        specs = [{"seed": a.seed, "replay": case, "watchdog_s": 900, "tier": a.tier, "debug_logging": bool(rec.get("debug_logging"))}]
     else:
         specs = m.plan(a.tier, a.seed)
         for s in specs:
